@@ -79,6 +79,10 @@ theorem C14_shift_fits_int32 (m i : Int) (hm : 0 ≤ m) (hi : 1 ≤ i) (hroom : 
 theorem kept_exchange (es : List Entry) : kept .exchange es = es := by
   simp [kept, skipped]
 
+/-- an exchange file has no entries that are skipped on purpose: the abort rule of pass 1 is out of reach for conforming files -/
+theorem cntSkipped_exchange (es : List Entry) : cntSkipped .exchange es = 0 := by
+  unfold cntSkipped; split <;> simp [skipped]
+
 theorem nodup_map_add (k : Int) (l : List Int) (h : l.Nodup) : (l.map (· + k)).Nodup := by
   induction l with
   | nil => exact List.nodup_nil
@@ -124,7 +128,7 @@ theorem appendExchange_spec (fill : Inst → Inst) (hfill : FillOk fill) (s : Se
     omega
   have h1 := pass1_spec .exchange (fileIdIncrOf s.maxId) (exchangeEntries f) s
     (by rw [kept_exchange, fids_exchange]; exact hfresh) (by rw [kept_exchange, fids_exchange]; exact hnd)
-    (by rw [kept_exchange, fids_exchange]; exact hnz)
+    (by rw [kept_exchange, fids_exchange]; exact hnz) (by rw [cntSkipped_exchange]; exact Nat.zero_le _)
   rw [kept_exchange, fids_exchange] at h1
   have h2 := pass2_spec .exchange fill noSev (fileIdIncrOf s.maxId) (pass1 .exchange (fileIdIncrOf s.maxId) s (exchangeEntries f)).maxId
     hfill.id_eq rfl rfl (exchangeEntries f) s.nodes
